@@ -120,6 +120,8 @@ pub mod k {
     pub const MIGRATE_SILENT: i128 = 87; // 1: the client is not told about its address change (NAT rebinding): no local_address_changed()
     pub const RETRY2: i128 = 88; // 1: an on-path attacker (a second server endpoint with another token key) answers the client's token-bearing Initial with its own, well-formed Retry, delivered before the real server's reply
     pub const BUSY_NEAR_US: i128 = 89; // >0: busy-polling driver - whenever a connection's next deadline is at most this far away every connection is driven every microsecond until then (drives that produce nothing leave no records)
+    pub const CLOSE_ON_TIMER: i128 = 90; // 1 + timer index (Timer::VALUES order: 0 LossDetection 1 Idle 2 Close 3 KeyDiscard 4 PathValidation 5 KeepAlive 6 Pacing 7 PushNewCid 8 MaxAckDelay): the application (CLOSER side) calls close() in the very driver iteration in which that timer of its connection has expired - after handle_timeout, before the endpoint's answers are delivered
+    pub const CLOSE_ON_TIMER_N: i128 = 91; // ... at its n-th expiry (default 1)
     pub const DGRAM_START: i128 = 81; // us: application datagrams are not sent before this instant
     pub const RECONNECT: i128 = 70; // open this many further client connections, one per drained connection (slot reuse)
 }
@@ -272,6 +274,8 @@ struct App {
     dgram_wake_set: bool,
     pending_stops: Vec<(u64, StreamId)>,
     hold_close_until: u64,
+    force_close: bool,
+    timer_hits: i128,
 }
 
 struct ConnSt {
@@ -646,6 +650,8 @@ impl World {
             dgram_wake_set: false,
             pending_stops: Vec::new(),
             hold_close_until: 0,
+            force_close: false,
+            timer_hits: 0,
         }
     }
 
@@ -1024,6 +1030,13 @@ impl World {
                     // one probe per handled datagram: several datagrams may be due at one instant and
                     // the monitors explain every state change as ONE step
                     self.probe(epi, ch.0, None);
+                    // ... under its own tag (18), so that monitors relying on "a probe is followed by
+                    // poll_transmit" are not confused
+                    if let Some(last) = self.trace.last_mut() {
+                        if last[0] == 8 {
+                            last[0] = 18;
+                        }
+                    }
                 } else {
                     self.trace.push(vec![11, t, epi as i128, -3, 1]); // routed to unknown/forgotten handle
                 }
@@ -1529,7 +1542,7 @@ impl World {
                 && app.inp.len() as u64 >= app.expect_in
                 && app.dgrams_left == 0
                 && app.connected;
-            let time_close = close_at > 0 && self.now as i128 >= close_at;
+            let time_close = (close_at > 0 && self.now as i128 >= close_at) || app.force_close;
             let done = done && now_us >= app.hold_close_until;
             if i_close && ((close_at == 0 && done && (app.is_client || !app.inp.is_empty() || app.stream_bytes == 0)) || time_close) {
                 let code = if app.is_client { 42 } else { 43 };
@@ -1672,6 +1685,10 @@ impl World {
         let now = self.inst(self.now);
         for epi in 0..2 {
             for z in 0..self.eps[epi].zombies.len() {
+                // the driver keeps servicing whatever deadline a drained connection still reports
+                if self.eps[epi].zombies[z].conn.poll_timeout().is_some_and(|d| d <= now) {
+                    self.eps[epi].zombies[z].conn.handle_timeout(now);
+                }
                 let mut buf = Vec::new();
                 let tr = self.eps[epi].zombies[z].conn.poll_transmit(now, 1, &mut buf);
                 let ev = self.eps[epi].zombies[z].conn.poll();
@@ -1740,6 +1757,16 @@ impl World {
                 for cs in ep.conns.values() {
                     if let Some(w) = cs.wake_at {
                         upd(w);
+                    }
+                }
+            }
+            for ep in &self.eps {
+                for z in &ep.zombies {
+                    if let Some(d) = z.conn.poll_timeout() {
+                        let rel = self.rel(Some(d));
+                        if rel > self.now as i128 {
+                            upd(rel as u64);
+                        }
                     }
                 }
             }
@@ -1906,6 +1933,20 @@ impl World {
                         continue;
                     }
                     let due = self.eps[epi].conns[&chk].wake_at.is_some_and(|w| w <= self.now);
+                    let cot = self.p.get(k::CLOSE_ON_TIMER, 0);
+                    if cot > 0 && due {
+                        let base = self.base + Duration::from_micros(self.p.get(k::SHIFT_US, 0) as u64);
+                        let pr = self.eps[epi].conns[&chk].conn.verif_probe(base);
+                        let dl = pr[18 + (cot as usize - 1).min(8)];
+                        if dl >= 0 && dl <= self.now as i128 {
+                            let nth = self.p.get(k::CLOSE_ON_TIMER_N, 1);
+                            let cs = self.eps[epi].conns.get_mut(&chk).unwrap();
+                            cs.app.timer_hits += 1;
+                            if cs.app.timer_hits == nth {
+                                cs.app.force_close = true;
+                            }
+                        }
+                    }
                     let sp = self.drv.chance(spurious);
                     if due || sp {
                         let now = self.inst(self.now);
